@@ -4,7 +4,7 @@ from __future__ import annotations
 import ast
 import math
 
-from ..engine import AnalysisError, PropertySpec, norm
+from ..engine import AnalysisError, MechanismMissing, PropertySpec, norm
 from ..pyutil import call_name, calls, const_str, dotted, is_name, literal, walk_local
 
 GEN = "src/pymoca/backends/casadi/generator.py"
@@ -157,6 +157,62 @@ def r13_3(ctx, rep):
            "for a in Symbol.ATTRIBUTES: setattr(variable, a, <value of getattr(symbol, a)>)")
 
 
+@SPEC.rule(
+    "R13.4",
+    "the affine rebuild of the metadata function is only taken after, for every variable list with parameter-dependent "
+    "attributes, the allowed-operation test AND the zero-Hessian test were evaluated: on every path from the "
+    "'parameters exist' guard to the end of the loop body the second derivative w.r.t. the parameters is computed and "
+    "its being non-zero clears is_affine",
+)
+def r13_4(ctx, rep):
+    R = "R13.4"
+    from ..cfg import CFG
+
+    fn = ctx.func(MODEL, "Model.variable_metadata_function", R)
+    site = MODEL + ":Model.variable_metadata_function"
+    cfg = CFG(fn, R)
+    def is_hess(x):
+        if x.kind not in ("stmt", "test") or isinstance(x.ast, (ast.FunctionDef, ast.ClassDef)):
+            return False
+        t = norm(x.ast.value) if (x.kind == "stmt" and isinstance(x.ast, ast.Assign)) else (norm(x.ast) if x.kind == "test" else "")
+        return t.count("ca.jacobian(") >= 2 and ".is_zero()" in t
+
+    hess = [x for x in cfg.nodes if is_hess(x)]
+    guard = [x for x in cfg.nodes if x.kind == "assume" and x.taken and "len(self.parameters) > 0" in norm(x.ast) and "isinstance(expr, ca.MX)" in norm(x.ast)]
+    sink = [x for x in cfg.stmts() if norm(x.ast) == "out.append(expr)"]
+    if not hess or not guard or not sink:
+        raise MechanismMissing(R, "Hessian test / parameter guard / out.append(expr) not found in variable_metadata_function")
+    # paths that have already given up the rebuild need no Hessian
+    given_up = {x.id for x in cfg.stmts() if norm(x.ast) == "is_affine = False"}
+    given_up |= {x.id for x in cfg.nodes if x.kind == "assume" and ((not x.taken and norm(x.ast) == "is_affine") or (x.taken and norm(x.ast) == "not is_affine"))}
+    w = cfg.path(guard[0].id, sink[0].id, avoid={h.id for h in hess} | given_up)
+    rep.ob(R, site, "Hessian evaluated on every path", w is None,
+           "some path decides about the affine rebuild without computing the second derivative: an attribute such as max = 10 / p "
+           "(division is an allowed operation) is then linearised at p = 0 and reported as NaN", path=cfg.describe(w) if w else "")
+    clears = True
+    for h in hess:
+        if h.kind == "test":
+            ok_h = False
+            for st in ast.walk(fn):
+                if isinstance(st, ast.If) and st.test is h.ast:
+                    neg = isinstance(st.test, ast.UnaryOp) and isinstance(st.test.op, ast.Not)
+                    ok_h = any(norm(s_) == "is_affine = False" for s_ in (st.body if neg else st.orelse))
+            clears = clears and ok_h
+        else:
+            hv = h.ast.targets[0].id
+            ok_h = False
+            for st in ast.walk(fn):
+                if isinstance(st, ast.If) and any(norm(s_) == "is_affine = False" for s_ in st.body):
+                    t = norm(st.test)
+                    if t == "not %s" % hv or (("not %s" % hv) in t and " or " in t and " and " not in t):
+                        ok_h = True
+            clears = clears and ok_h
+    rep.ob(R, site, "non-zero Hessian clears is_affine", clears, "is_affine must become False when the Hessian is not zero")
+    # rebuild only under is_affine
+    ok = any(isinstance(st, ast.If) and "is_affine" in norm(st.test) and "len(self.parameters) > 0" in norm(st.test) and any("Af" in norm(x) for x in st.body) for st in ast.walk(fn))
+    rep.ob(R, site, "rebuild guarded by is_affine", ok, "the A*p + b rebuild must be guarded by is_affine")
+
+
 # -- seeded variants ---------------------------------------------------------
 from ._mut import replace_in_func  # noqa: E402
 
@@ -216,3 +272,20 @@ def _m5(mod):
         return False
 
     return mod if replace_in_func(mod, "Variable.__init__", edit) else None
+
+
+@SPEC.mutant("Hessian test only when a product occurs", MODEL, "R13.4", "Hessian")
+def _m6(mod):
+    def edit(fn):
+        for node in ast.walk(fn):
+            for fld in ("body", "orelse"):
+                b = getattr(node, fld, None)
+                if isinstance(b, list):
+                    for i, st in enumerate(b):
+                        if isinstance(st, ast.Assign) and norm(st.value).count("ca.jacobian(") >= 2:
+                            b[i] = ast.If(test=ast.parse("ca.OP_MUL in f_ops", mode="eval").body, body=[st],
+                                          orelse=[ast.parse("zero_hessian = True").body[0]])
+                            return True
+        return False
+
+    return mod if replace_in_func(mod, "Model.variable_metadata_function", edit) else None
